@@ -73,13 +73,20 @@ def _alarm(signum, frame):
 
 
 def with_watchdog(fn, seconds=60):
-    old = signal.signal(signal.SIGALRM, _alarm)
-    signal.setitimer(signal.ITIMER_REAL, seconds)
-    try:
-        return fn()
-    finally:
-        signal.setitimer(signal.ITIMER_REAL, 0)
-        signal.signal(signal.SIGALRM, old)
+    """Bounded wait for the 'returns instead of hanging' clause.  A first timeout is retried once with a three
+    times longer budget (a loaded machine must not look like a hang); only a repeated timeout propagates."""
+    for attempt, budget in enumerate((seconds, 3 * seconds)):
+        old = signal.signal(signal.SIGALRM, _alarm)
+        signal.setitimer(signal.ITIMER_REAL, budget)
+        try:
+            return fn()
+        except _Timeout:
+            if attempt == 1:
+                raise
+        finally:
+            signal.setitimer(signal.ITIMER_REAL, 0)
+            signal.signal(signal.SIGALRM, old)
+    return None
 
 
 def check_exception(out: Outcome, tag: str, e: BaseException, exc_key: str, fname: str, kw_reprs: dict):
